@@ -43,6 +43,12 @@ where
                     to - from,
                 )
             };
+            #[cfg(feature = "verif")]
+            crate::verif::access(
+                src.as_ptr() as *const u8,
+                size_of_val(src),
+                "ReadOnlyRawVec::read_into_at(bulk)",
+            );
             buf.extend_from_slice(src);
         } else {
             self.fold_source(from, to, len, (), |(), v| buf.push(v));
